@@ -5,7 +5,6 @@ import (
 	"go/token"
 	"go/types"
 
-	"verif/checker/internal/orderdom"
 	"verif/checker/internal/pathsim"
 	"verif/checker/internal/prog"
 )
@@ -100,40 +99,14 @@ func init() {
 			// keep-highest idiom: a guard comparing checkpoint ids controls the replacement of the candidate
 			idField := r.P.Field("proto/snapshotpb", "JobCheckpoint", "Id")
 			getID := r.P.FuncObj("proto/snapshotpb", "(*JobCheckpoint).GetId")
-			var guard *ast.IfStmt
-			var best types.Object
-			var cand ast.Expr
-			inspect(loop.Body, func(nd ast.Node) bool {
-				is, ok := nd.(*ast.IfStmt)
-				if !ok {
-					return true
-				}
-				usesID := exprUsesField(info, is.Cond, idField) || r.exprCalls(info, is.Cond, getID)
-				if !usesID {
-					return true
-				}
-				for _, st := range is.Body.List {
-					if as, ok := st.(*ast.AssignStmt); ok && len(as.Lhs) >= 1 && len(as.Rhs) >= 1 && as.Tok == token.ASSIGN {
-						if o := prog.IdentObj(info, as.Lhs[0]); o != nil {
-							guard, best, cand = is, o, as.Rhs[0]
-						}
-					}
-				}
-				return true
-			})
-			if guard == nil {
+			best := r.keepBest(info, loop.Body, f.Name()+":keep-highest-id",
+				func(e ast.Expr) bool { return exprUsesField(info, e, idField) || r.exprCalls(info, e, getID) },
+				func(x string) []string { return []string{x + ".Id", x + ".GetId()"} },
+				"no candidate yet || snapshot.Id > best.Id")
+			if best == nil {
 				r.Fail(f.Name()+":no-selection", loop.Pos(), nil, "LoadCheckpoint neither stops at the first *.snapshot nor keeps the snapshot with the highest id")
 				return
 			}
-			bn, cn := best.Name(), types.ExprString(cand)
-			names := map[string]string{
-				cn + ".Id": "cand", cn + ".GetId()": "cand", bn + ".Id": "best", bn + ".GetId()": "best",
-				bn + " == nil": "?none", bn + " != nil": "?some",
-			}
-			r.orderDomExpr(info, guard.Cond, f.Name()+":keep-highest-id", names,
-				func(e odEnv) bool { return e.Rank["cand"] != e.Rank["best"] && e.Bool["?none"] != e.Bool["?some"] },
-				func(e odEnv) orderdom.Value { return orderdom.Bool(e.Bool["?none"] || e.Rank["cand"] > e.Rank["best"]) },
-				"no candidate yet || snapshot.Id > best.Id")
 			// the selected snapshot is what gets loaded
 			used := false
 			inspect(f.Decl.Body, func(nd ast.Node) bool {
